@@ -201,7 +201,8 @@ def decVarDef (j : Json) : Except String VarDef := do
   pure ⟨← unhex (← Driver.getStr j "name"), ← decTy (← j.getObjVal? "type"), d⟩
 
 def decFrag (j : Json) : Except String Frag := do
-  pure ⟨← unhex (← Driver.getStr j "name"), ← unhex (← Driver.getStr j "tc"), ← (← Driver.getArr j "sel").toList.mapM decSel⟩
+  pure ⟨← unhex (← Driver.getStr j "name"), ← unhex (← Driver.getStr j "tc"),
+    ← (← Driver.getArr j "dirs").toList.mapM decDir, ← (← Driver.getArr j "sel").toList.mapM decSel⟩
 
 def decOpDef (j : Json) : Except String OpDef := do
   pure ⟨← unhex (← Driver.getStr j "operation"), ← (← Driver.getArr j "varDefs").toList.mapM decVarDef,
